@@ -90,6 +90,9 @@ structure Scn where
   objects : Option (List JPObj)
   store : Option (List JSObj)
   env : Option (List JEnv)
+  -- kinds whose REST-mapper lookups fail with a transient (non-NoMatch) error during this pass
+  -- (`mapErrClass` of the scenario — which error exactly — is not read)
+  mapErr : Option (List String) := none
   deriving FromJson, Repr
 
 def toRef (r : JRef) : ORef := ⟨r.group, r.kind, r.name, r.uid, r.ctrl⟩
@@ -134,7 +137,7 @@ def flavourOf : String → Flavour × Strategy
 
 def cfgOf (s : Scn) : Cfg :=
   let (fl, st) := flavourOf s.flavour
-  { st := st, flavour := fl, scope := scopeOf, force := s.force }
+  { st := st, flavour := fl, scope := scopeOf, force := s.force, mapErr := fun k => (s.mapErr.getD []).contains k }
 
 def ownerOf (s : Scn) : Owner :=
   { group := pkoGroup, kind := s.owner.kind, ns := s.owner.ns, name := s.owner.name, uid := s.owner.uid, rev := s.owner.rev, paused := s.owner.paused, pkgLabel := s.owner.pkgLabel }
